@@ -208,10 +208,11 @@ contract('parso.python.tokenize.tokenize_lines.dedent_if_necessary', kind='gener
 
 # ---- FStringNode bookkeeping (C09): bracket depth and format-spec depth of one open f-string
 FSN = 'ref:FStringNode'
-contract('parso.python.tokenize.FStringNode.__init__', params={'self': FSN, 'quote': 'str'},
-         ensures=['self.quote == quote', 'self.parentheses_count == 0', 'self.format_spec_count == 0',
+class_fields('FStringNode', raw='bool')
+contract('parso.python.tokenize.FStringNode.__init__', params={'self': FSN, 'quote': 'str', 'raw': 'bool'},
+         ensures=['self.quote == quote', 'self.raw == raw', 'self.parentheses_count == 0', 'self.format_spec_count == 0',
                   'self.previous_lines == ""'],
-         modifies=['self.quote', 'self.parentheses_count', 'self.previous_lines', 'self.last_string_start_pos',
+         modifies=['self.quote', 'self.raw', 'self.parentheses_count', 'self.previous_lines', 'self.last_string_start_pos',
                    'self.format_spec_count'], props=['C09'])
 contract('parso.python.tokenize.FStringNode.open_parentheses', params={'self': FSN, 'character': 'str'},
          ensures=['self.parentheses_count == old(self.parentheses_count) + 1',
